@@ -543,4 +543,124 @@ Section QueryOk.
         apply Hmem. unfold WFDefs.pred_rel, WFDefs.grp_of. rewrite Hd, Hi. unfold WFDefs.name_at. rewrite Hj.
         rewrite (cn_directed tltb _ _ _ Hd), Eg. discriminate.
   Qed.
+
+  (* ---------------- get_neighbor_nodes ---------------- *)
+  Lemma In_ins_nat a x l : In a (ins_nat x l) <-> a = x \/ In a l.
+  Proof.
+    induction l as [|y t IH]; simpl; [intuition|].
+    destruct (Nat.leb x y); simpl; [intuition|]. rewrite IH. intuition.
+  Qed.
+  Lemma In_sort_nat a l : In a (sort_nat l) <-> In a l.
+  Proof.
+    unfold sort_nat. induction l as [|y t IH]; simpl; [reflexivity|].
+    rewrite In_ins_nat, IH. intuition.
+  Qed.
+  Inductive sorted_nat : list nat -> Prop :=
+  | sn_nil : sorted_nat []
+  | sn_one a : sorted_nat [a]
+  | sn_cons a b t : a <= b -> sorted_nat (b :: t) -> sorted_nat (a :: b :: t).
+  Lemma sorted_ins x l : sorted_nat l -> sorted_nat (ins_nat x l).
+  Proof.
+    induction 1 as [|a|a b t Hab Hs IH]; simpl.
+    - constructor.
+    - destruct (Nat.leb x a) eqn:E; [apply Nat.leb_le in E|apply Nat.leb_gt in E]; constructor; try lia; constructor.
+    - destruct (Nat.leb x a) eqn:E.
+      + apply Nat.leb_le in E. constructor; [exact E|]. constructor; assumption.
+      + apply Nat.leb_gt in E. simpl in IH. destruct (Nat.leb x b) eqn:E2.
+        * apply Nat.leb_le in E2. constructor; [lia|]. constructor; [exact E2|exact Hs].
+        * constructor; [exact Hab|exact IH].
+  Qed.
+  Lemma sorted_sort l : sorted_nat (sort_nat l).
+  Proof. unfold sort_nat. induction l as [|y t IH]; simpl; [constructor|]. apply sorted_ins. exact IH. Qed.
+  Lemma sorted_head_le a l : sorted_nat (a :: l) -> forall b, In b l -> a <= b.
+  Proof.
+    revert a. induction l as [|c t IH]; intros a H b Hb; [destruct Hb|].
+    inversion H; subst. destruct Hb as [->|Hb]; [assumption|].
+    assert (c <= b) by (apply IH; assumption). lia.
+  Qed.
+  Lemma sorted_tail a l : sorted_nat (a :: l) -> sorted_nat l.
+  Proof. intros H. inversion H; subst; [constructor|assumption]. Qed.
+  Lemma dedup_sorted l : sorted_nat l -> NoDup (dedup_nat l) /\ (forall a, In a (dedup_nat l) <-> In a l).
+  Proof.
+    induction l as [|x t IH]; intros Hs; [simpl; split; [constructor|intuition]|].
+    specialize (IH (sorted_tail _ _ Hs)). destruct IH as (Hnd & Hmem).
+    destruct t as [|y t']; [simpl; split; [constructor; [intros []|constructor]|intuition]|].
+    change (dedup_nat (x :: y :: t')) with (if Nat.eqb x y then dedup_nat (y :: t') else x :: dedup_nat (y :: t')).
+    destruct (Nat.eqb x y) eqn:E.
+    - apply Nat.eqb_eq in E. subst y. split; [exact Hnd|].
+      intros a. rewrite Hmem. simpl. intuition.
+    - apply Nat.eqb_neq in E. split.
+      + constructor; [|exact Hnd]. intros Hin. apply Hmem in Hin.
+        destruct Hin as [Hin|Hin]; [congruence|].
+        pose proof (sorted_head_le _ _ (sorted_tail _ _ Hs) x Hin) as H2.
+        inversion Hs; subst. lia.
+      + intros a. simpl. rewrite Hmem. simpl. intuition.
+  Qed.
+
+  Theorem get_neighbor_nodes_spec (g : gstate) x :
+    WF g -> In x (names g) ->
+    exists l, get_neighbor_nodes teqb g x = Ok l /\ NoDup (map nname l) /\
+              forall y, In y (map nname l) <->
+                        (In y (names g) /\
+                         (group g (cn (sp g) x y) <> None \/ (directed (sp g) = true /\ group g (y, x) <> None))).
+  Proof.
+    intros W Hx. unfold get_neighbor_nodes.
+    assert (Hc : contains_key teqb x (nodes_map g) = true) by (apply (contains_key_names g x W); exact Hx).
+    rewrite Hc. simpl.
+    apply In_nth_error in Hx. destruct Hx as (i & Hi). change (name_at g i = Some x) in Hi.
+    unfold get_node_index. rewrite (proj2 (wf_nmap _ _ _ W x i) Hi).
+    assert (Hilt : i < nn g) by (unfold WFDefs.nn; apply nth_error_Some; unfold WFDefs.name_at in Hi; congruence).
+    destruct (wf_sv _ _ _ W) as (Hsl & Hsr). destruct (wf_pv _ _ _ W) as (Hpl & Hpr).
+    destruct (nth_error (predecessors_vec g) i) as [pr|] eqn:Epr; [|apply nth_error_None in Epr; lia].
+    destruct (nth_error (successors_vec g) i) as [su|] eqn:Esu; [|apply nth_error_None in Esu; lia].
+    destruct (Hsr i su Esu) as (_ & Hsm). destruct (Hpr i pr Epr) as (_ & Hpm).
+    set (js := dedup_nat (sort_nat (map fst pr ++ map fst su))).
+    destruct (dedup_sorted _ (sorted_sort (map fst pr ++ map fst su))) as (Hnd & Hmem). fold js in Hnd, Hmem.
+    assert (Hjs : forall j, In j js <-> (grp_of teqb tltb g i j <> None \/ pred_rel teqb tltb g i j <> None)).
+    { intros j. rewrite Hmem, In_sort_nat, in_app_iff. split.
+      - intros [H|H]; apply in_map_iff in H; destruct H as ((j' & w) & Ej & Hin); simpl in Ej; subst j'.
+        + right. apply Hpm in Hin. destruct Hin as (l0 & Hl0 & _). congruence.
+        + left. apply Hsm in Hin. destruct Hin as (l0 & Hl0 & _). congruence.
+      - intros [H|H].
+        + right. destruct (grp_of teqb tltb g i j) as [l0|] eqn:E; [|congruence].
+          apply in_map_iff. exists (j, adjw (sp g) l0). split; [reflexivity|]. apply Hsm. eauto.
+        + left. destruct (pred_rel teqb tltb g i j) as [l0|] eqn:E; [|congruence].
+          apply in_map_iff. exists (j, adjw (sp g) l0). split; [reflexivity|]. apply Hpm. eauto. }
+    assert (Hname : forall j, In j js -> name_at g j <> None).
+    { intros j Hj. apply Hjs in Hj. unfold WFDefs.pred_rel, WFDefs.grp_of in Hj. rewrite Hi in Hj.
+      destruct (name_at g j); [discriminate|]. destruct Hj as [Hj|Hj]; [congruence|].
+      destruct (directed (sp g)); congruence. }
+    assert (Hlt : forall j, In j js -> j < nn g).
+    { intros j Hj. apply Hname in Hj. unfold WFDefs.nn. apply nth_error_Some. exact Hj. }
+    destruct (nodes_by_index_ok g "query.rs:get_neighbor_nodes unwrap" js W Hlt) as (l & Hl & Hm).
+    exists l. split; [exact Hl|].
+    assert (Hnames : forall y, In y (map nname l) <-> exists j, In j js /\ name_at g j = Some y).
+    { intros y. split.
+      - intros Hy. assert (In (Some y) (map (fun n => Some (nname n)) l)).
+        { apply in_map_iff in Hy. destruct Hy as (n & <- & Hn). apply in_map_iff. exists n. auto. }
+        rewrite Hm in H. apply in_map_iff in H. destruct H as (j & Ej & Hj). eauto.
+      - intros (j & Hj & Ej). assert (In (Some y) (map (name_at g) js)) by (rewrite <- Ej; apply in_map; exact Hj).
+        rewrite <- Hm in H. apply in_map_iff in H. destruct H as (n & En & Hn). inversion En. subst.
+        apply in_map. exact Hn. }
+    split.
+    - assert (Hinj : NoDup (map (name_at g) js)).
+      { apply NoDup_map_inj; [|exact Hnd]. intros a b Ha Hb E.
+        destruct (name_at g a) as [ya|] eqn:Ea.
+        - symmetry in E. eapply (name_at_inj teqb tltb); eauto.
+        - apply Hname in Ha. congruence. }
+      rewrite <- Hm in Hinj. clear -Hinj.
+      induction l as [|n l IH]; simpl in *; [constructor|]. inversion Hinj as [|? ? Hni Hnd']; subst. constructor.
+      + intros Hin. apply Hni. apply in_map_iff in Hin. destruct Hin as (m & Em & Hm). apply in_map_iff.
+        exists m. split; [rewrite Em; reflexivity|exact Hm].
+      + apply IH. exact Hnd'.
+    - intros y. rewrite Hnames. split.
+      + intros (j & Hj & Ej). split; [unfold WFDefs.name_at in Ej; eapply nth_error_In; exact Ej|].
+        apply Hjs in Hj. unfold WFDefs.pred_rel, WFDefs.grp_of in Hj. rewrite Hi, Ej in Hj.
+        destruct Hj as [Hj|Hj]; [left; exact Hj|].
+        destruct (directed (sp g)) eqn:Hd; [|congruence]. right. split; [reflexivity|].
+        rewrite (cn_directed tltb _ _ _ Hd) in Hj. exact Hj.
+      + intros (Hy & Hor). apply In_nth_error in Hy. destruct Hy as (j & Hj). change (name_at g j = Some y) in Hj.
+        exists j. split; [|exact Hj]. apply Hjs. unfold WFDefs.pred_rel, WFDefs.grp_of. rewrite Hi, Hj.
+        destruct Hor as [H|(Hd & H)]; [left; exact H|]. right. rewrite Hd, (cn_directed tltb _ _ _ Hd). exact H.
+  Qed.
 End QueryOk.
